@@ -629,6 +629,69 @@ pub fn check_reuse(c: &Reuse, obs: &mut Obs) -> CheckResult {
     Ok(())
 }
 
+/// The writer is reused after a sink failure was reported: a first DIMACS document (behind 20 KB
+/// of filler, so that the buffer is flushed implicitly on the way) meets a sink that fails at its
+/// `fail_call`-th call; `flush()` reports the failure; a second document written afterwards must
+/// reach the sink exactly as written alone ("any data written after an IO error occured, before
+/// it is eventually reported, will be discarded").
+#[derive(Serialize, Deserialize, Clone, Debug, PartialEq, Eq, Hash)]
+pub struct AfterFailure {
+    pub lit: u8,
+    pub first: DimacsDoc,
+    pub second: DimacsDoc,
+    pub fail_call: u8,
+    /// Bytes the sink accepts per call (0 = everything).
+    pub accept: u32,
+}
+
+pub fn check_after_failure(c: &AfterFailure, obs: &mut Obs) -> CheckResult {
+    use crate::writer_model::{Sink, SinkScript, SinkStep};
+    let accept = if c.accept == 0 { u32::MAX } else { c.accept };
+    let mut steps = vec![SinkStep::Accept(accept); c.fail_call as usize];
+    steps.push(SinkStep::Fail(crate::source::ErrKind::BrokenPipe));
+    let (sink, log) = Sink::new(SinkScript { steps, tail_accept: accept });
+    let alone = c.second.write_with_crate(c.lit);
+    let at_report;
+    {
+        let mut w = flussab::DeferredWriter::from_write(sink);
+        w.write_all_defer_err(&vec![b'#'; 20_000]);
+        c.first.write_into(&mut w, c.lit);
+        let r = std::io::Write::flush(&mut w);
+        let failed = log.borrow().failures > 0;
+        obs.class(if failed { "sink-failed-during-first-document" } else { "sink-did-not-fail" });
+        if failed != r.is_err() {
+            fail!(
+                "C03:dimacs:after-failure:report",
+                "flush() returned {:?} although the sink {} during the first document",
+                r.map_err(|e| e.to_string()),
+                if failed { "failed" } else { "did not fail" }
+            );
+        }
+        if !failed {
+            return Ok(());
+        }
+        obs.nontrivial();
+        log.borrow_mut().pending = false;
+        at_report = log.borrow().received.len();
+        c.second.write_into(&mut w, c.lit);
+        if let Err(e) = std::io::Write::flush(&mut w) {
+            fail!("C03:dimacs:after-failure:second-flush", "flush() after the second document returned {e} although the sink did not fail again");
+        }
+    }
+    let l = log.borrow();
+    if l.received[at_report..] != alone[..] {
+        fail!(
+            "C03:dimacs:after-failure:stale-data",
+            "after a reported sink failure the second document reaches the sink as {} bytes, written alone it has {} bytes; sink after the report {:?}; document alone {:?}",
+            l.received.len() - at_report,
+            alone.len(),
+            show_bytes(&l.received[at_report..]),
+            show_bytes(&alone)
+        );
+    }
+    Ok(())
+}
+
 pub fn at_end_strategy() -> impl Strategy<Value = AtEnd> {
     (
         prop_oneof![3 => forward_strategy().boxed(), 1 => huge_binary_strategy().boxed()],
@@ -669,6 +732,21 @@ fn run(ctx: &Ctx) {
         Reuse { first, second }
     });
     ctx.run_cases("writer-reuse", n, strat, check_reuse);
+    let n = ctx.share(ctx.tier.pick(60_000, 2_000_000));
+    let dimacs = |lit: u8| {
+        proptest::sample::select(vec![ParserId::Cnf, ParserId::Wcnf, ParserId::Gcnf]).prop_flat_map(move |parser| {
+            doc_strategy(Spec { parser, lit, flag: false }, 8).prop_map(|d| match d {
+                Doc::Dimacs(d) => d,
+                _ => unreachable!(),
+            })
+        })
+    };
+    let strat = (0u8..5).prop_flat_map(move |lit| {
+        (Just(lit), dimacs(lit), dimacs(lit), 0u8..4, prop_oneof![Just(0u32), Just(1000u32), Just(7u32)]).prop_map(
+            |(lit, first, second, fail_call, accept)| AfterFailure { lit, first, second, fail_call, accept },
+        )
+    });
+    ctx.run_cases("reuse-after-sink-failure", n, strat, check_after_failure);
     let n = ctx.share(ctx.tier.pick(800_000, 40_000_000));
     ctx.run_cases("forward", n, forward_strategy(), check_forward);
     // BTOR2 constants from candidate strings: whatever the validating constructors accept must
@@ -712,6 +790,10 @@ fn run(ctx: &Ctx) {
 
 fn replay(oracle: &str, v: &Value) -> Option<CheckResult> {
     match oracle {
+        "reuse-after-sink-failure" => Some(match replay_from_file::<AfterFailure>(v) {
+            Ok(c) => check_after_failure(&c, &mut Obs::default()),
+            Err(e) => Err(Failure::new("C03:decode", e)),
+        }),
         "writer-reuse" => Some(match replay_from_file::<Reuse>(v) {
             Ok(c) => check_reuse(&c, &mut Obs::default()),
             Err(e) => Err(Failure::new("C03:decode", e)),
